@@ -131,7 +131,8 @@ def export_scripts(cfgname, num, depth, seed, out_path, fam):
                 elif st["a"] == "resume":
                     # the connection was lost (run() has returned): record the disconnection and connect again
                     steps.append({"a": "markdisc", "secs": 150 if st["age"] == "after" else 0})
-                    steps.append({"a": "reconnect", "R": c["R"], "M": 30 if c["Msz"] else None, "sei_connect": sei, "fam": fam, "run": n})
+                    # the second connection announces its own Receive Maximum / Maximum Packet Size (model size 10 = 30 real bytes)
+                    steps.append({"a": "reconnect", "R": st.get("R", c["R"]), "M": 30 if st.get("M", c["Msz"]) else None, "sei_connect": sei, "fam": fam, "run": n})
                     last_ctx = False
                 elif st["a"] == "drop" and st["t"] == "h":
                     steps.append({"a": "drop", "t": "h", "k": 0})
